@@ -31,6 +31,7 @@ pub enum Cmd {
     Ret(Option<u32>),
     Exit(Option<u32>),
     SetE(bool),
+    SetM(bool),
     Call(&'static str),
     Unknown,
     Tick(u32, u32),
@@ -105,6 +106,7 @@ fn sx_cmd(c: &Cmd) -> String {
         Cmd::Exit(None) => "(exit)".into(),
         Cmd::Exit(Some(n)) => format!("(exit {n})"),
         Cmd::SetE(b) => format!("(sete {})", *b as u8),
+        Cmd::SetM(b) => format!("(setm {})", *b as u8),
         Cmd::Call(n) => format!("(call {})", sx_name(n)),
         Cmd::Unknown => "(unk)".into(),
         Cmd::Tick(c, k) => format!("(tick {c} {k})"),
@@ -276,6 +278,7 @@ fn to_cmd(x: &Sx) -> Option<Cmd> {
         ("exit", 1) => Cmd::Exit(None),
         ("exit", 2) => Cmd::Exit(Some(num(&v[1])?)),
         ("sete", 2) => Cmd::SetE(num(&v[1])? != 0),
+        ("setm", 2) => Cmd::SetM(num(&v[1])? != 0),
         ("call", 2) => Cmd::Call(name(&v[1])?),
         ("unk", 1) => Cmd::Unknown,
         ("tick", 3) => Cmd::Tick(num(&v[1])?, num(&v[2])?),
@@ -458,6 +461,16 @@ impl Render {
             Cmd::Exit(Some(n)) => self.simple(&["exit".into(), n.to_string()]),
             Cmd::SetE(true) => self.simple(&["set".into(), "-e".into()]),
             Cmd::SetE(false) => self.simple(&["set".into(), "+e".into()]),
+            Cmd::SetM(on) => {
+                let w: &[&str] = match (*on, self.rng.below(2)) {
+                    (true, 0) => &["set", "-m"],
+                    (true, _) => &["set", "-o", "monitor"],
+                    (false, 0) => &["set", "+m"],
+                    (false, _) => &["set", "+o", "monitor"],
+                };
+                let v: Vec<String> = w.iter().map(|s| s.to_string()).collect();
+                self.simple(&v)
+            }
             Cmd::Call(n) => self.simple(&[n.to_string()]),
             Cmd::Unknown => self.simple(&["no_such_command_xyz".into()]),
             Cmd::Tick(c, k) if self.real => {
@@ -741,7 +754,8 @@ impl Gen {
                 }
             }
             85..=87 => Cmd::Unknown,
-            88..=90 => Cmd::SetE(self.rng.chance(1, 2)),
+            88..=89 => Cmd::SetE(self.rng.chance(1, 2)),
+            90 => Cmd::SetM(self.rng.chance(2, 3)),
             _ => {
                 // a command whose status changes from one execution to the next
                 self.counter += 1;
@@ -893,6 +907,10 @@ impl Gen {
     pub fn script(&mut self) -> Vec<Line> {
         let nlines = 1 + self.rng.below(4);
         let mut lines = vec![];
+        if self.rng.chance(1, 5) {
+            // job control in a script: pipelines then run in one more subshell
+            lines.push(Line::Cmds(vec![Item(Pipeline(false, vec![Cmd::SetM(true)]), vec![])]));
+        }
         if self.errors {
             // EXIT trap and errexit are set up front in most scripts
             let mut first = vec![];
